@@ -264,6 +264,38 @@ def run(ctx):
                 ctx.violation("impl-violates-spec", "columns of %s: size %s, fsize/format_size %s; lstat says %d and format_filesize gives %s" % (x[0], x[1], x[2:], byname[x[0]], want), input={"query": r["query"]})
             else:
                 st["agreed"] += 1
+    # the `fsize` column under a configured default_file_size_format: the column renders with exactly that specifier
+    # (the space of the grammar is a token wherever it stands: first, last or in the middle)
+    cfg_specs = [" ", "%.2 ", "%.0 ", " d", " s", " kb", "%.2 d", "%.1", "%.0 kb", "%.0s", " c", "%.3 ck"] + [sp["spec"] for sp in rng.sample(specs, 6 if ctx.tier == "quick" else 60)]
+    cfg_specs = [sp_ for sp_ in dict.fromkeys(cfg_specs) if '"' not in sp_ and "\\" not in sp_ and "'" not in sp_ and "\n" not in sp_]
+
+    def cfg_one(item):
+        k, sp_ = item
+        home = os.path.join(ctx.scratch, "szhome%d" % k)
+        os.makedirs(os.path.join(home, ".config", "fselect"), exist_ok=True)
+        with open(os.path.join(home, ".config", "fselect", "config.toml"), "w") as f:
+            f.write('default_file_size_format = "%s"\n' % sp_)
+        rows_, r_ = qlib.select(ctx.impl, "name, size, fsize, format_size(size, %s)" % qlib.quote(sp_), "from sz", cwd=ctx.scratch, env={"HOME": home, "XDG_CONFIG_HOME": os.path.join(home, ".config")})
+        return sp_, rows_, r_
+
+    cfg_runs = pmap(cfg_one, list(enumerate(cfg_specs)))
+    chk2 = h.batch([{"cmd": "fmtsize", "n": int(x[1]), "m": sp_} for sp_, rows_, _ in cfg_runs if rows_ for x in rows_])
+    ci = 0
+    for sp_, rows_, r_ in cfg_runs:
+        case = {"config": 'default_file_size_format = "%s"' % sp_, "query": r_["query"]}
+        if rows_ is None:
+            ctx.violation("impl-violates-spec", "fsize query under a configured size format failed: %r" % r_["stderr"][:200], input=case)
+            continue
+        for x in rows_:
+            st["evaluations"] += 1
+            want = chk2[ci].get("r")
+            ci += 1
+            if x[2] != x[3] or x[2] != want:
+                ctx.violation("impl-violates-spec", "with default_file_size_format = %r, fsize of %s (%s bytes) is %r but FORMAT_SIZE(size, %r) is %r (format_filesize: %r)" % (sp_, x[0], x[1], x[2], sp_, x[3], want), input=case)
+                break
+        else:
+            st["agreed"] += 1
+            st["hist"]["fsize_configured_format"] += 1
     # ---- (4) the Gallina model (model/Size.v) against the real parse_filesize / format_filesize, exactly ----
     sd = os.path.join(VERIF, "tools", "sizediff")
     env = dict(os.environ, SIZE_COQ=COQ, SIZE_WORK=os.path.join(ctx.scratch, "sizediff"), FSHARNESS=os.path.join(BUILD, "harness", "release", "fsharness"), TZ="UTC")
@@ -291,7 +323,7 @@ def run(ctx):
                 st["agreed"] += s_["parse_total"] + s_["fmt_total"]
     ctx.coverage.update(
         evaluations=st["evaluations"], distinct_nontrivial=len(st["distinct"]), traces_validated_against_impl=st["agreed"],
-        rule="(1) literals <integer|dyadic fraction|decimal fraction><unit> over every documented unit in every letter case, with and without a space, through the real parse_filesize: value = number x documented multiplier (exactly; decimal fractions within one byte); (2) `size OP literal` on files whose sizes sit at m*n-1, m*n, m*n+1 for the multipliers, on the binary; (3) FORMAT_SIZE specifiers from the documented grammar (precision, space, d/c base, fixed unit, short flag, upper case) x sizes: unit name, space, number of decimals and value within half a unit of the last digit, judged from the documentation; default rendering monotone and reading back within the displayed precision on random sizes and all 2^k-1, 2^k, 2^k+1; fsize / format_size columns of the binary equal the function; (4) model.Size evaluated by coqc equals the real parse_filesize / format_filesize exactly on generated literals (incl. malformed, huge, non-ASCII) and (size, specifier) pairs. non-trivial = distinct literal spellings",
+        rule="(1) literals <integer|dyadic fraction|decimal fraction><unit> over every documented unit in every letter case, with and without a space, through the real parse_filesize: value = number x documented multiplier (exactly; decimal fractions within one byte); (2) `size OP literal` on files whose sizes sit at m*n-1, m*n, m*n+1 for the multipliers, on the binary; (3) FORMAT_SIZE specifiers from the documented grammar (precision, space, d/c base, fixed unit, short flag, upper case) x sizes: unit name, space, number of decimals and value within half a unit of the last digit, judged from the documentation; default rendering monotone and reading back within the displayed precision on random sizes and all 2^k-1, 2^k, 2^k+1; fsize / format_size columns of the binary equal the function, also under a configuration file that sets default_file_size_format (specifiers with the space first, last and in the middle); (4) model.Size evaluated by coqc equals the real parse_filesize / format_filesize exactly on generated literals (incl. malformed, huge, non-ASCII) and (size, specifier) pairs. non-trivial = distinct literal spellings",
         samples=st["samples"], distribution=dict(st["hist"]))
     return ctx.finish(trusted=["humansize 2.1.3 is transcribed in model/Size.v (validated on every run); specifiers the documentation does not describe (`d` with a fixed unit, p/e units, `b`) are exercised by the model comparison only",
                                "binary64 arithmetic of the model is lib/SoftF64.v (round-to-nearest-even proved: C14_rounding_is_nearest_even)"])
